@@ -137,6 +137,10 @@ pub uninterp spec fn draw(i: nat, len: nat) -> Seq<u8>;
 pub axiom fn axiom_rng(i: nat, j: nat, li: nat, lj: nat)
     ensures draw(i, li) == draw(j, lj) ==> i == j;
 
+/// a draw of `len` bytes has `len` bytes
+pub axiom fn lemma_draw_len(i: nat, len: nat)
+    ensures draw(i, len).len() == len;
+
 /// value types `rand::Rng::gen` is used at (`[u8; N]`: rand-0.8.5
 /// src/distributions/other.rs `Standard` for arrays = N successive bytes)
 pub trait RandFill: Sized {
